@@ -85,7 +85,11 @@ pub fn explain(before: &DirState, after: &DirState, capacity: usize, own: Option
                     if n <= capacity {
                         return Err(format!("directory within capacity ({} files <= {}) but {} was re-stamped (mtime {} -> {})", n, capacity, name, m0, m1));
                     }
-                    if *m1 < max_old {
+                    // "back of the queue" = stamped with the current time, which is behind every mtime that
+                    // existed before unless some files are dated in the future (clock skew between writers):
+                    // those legitimately stay behind a file re-stamped now
+                    let floor = max_old.min(crate::common::now_ns() - 3_600_000_000_000);
+                    if *m1 < floor {
                         return Err(format!("{} was re-stamped to mtime {} which is older than an mtime that existed before ({}): not moved to the back of the queue", name, m1, max_old));
                     }
                     if a1 >= m1 {
